@@ -267,7 +267,7 @@ func init() {
 func c0809Insts(k int64) []Inst {
 	var out []Inst
 	for first := int64(0); first <= 6; first++ {
-		for second := int64(0); second <= 7; second++ {
+		for second := int64(0); second <= 8; second++ {
 			out = append(out, Inst{Pkg: "gateway", Fn: "VH_C08_hist", Args: []int64{k, first, second}, MaxPaths: 200000})
 		}
 	}
@@ -275,7 +275,7 @@ func c0809Insts(k int64) []Inst {
 }
 
 var c0809Bounds = map[string]string{
-	"histories":     "fresh session, k events (quick k = 3, thorough k = 4): first event fixed per instance, the others chosen symbolically among CONNECT (will flag, clean session, keep-alive incl. 0, client ID symbolic), AUTH with a 5-byte method (PLAIN reachable) and 3 or 4 symbolic data bytes, AUTH with a 1-byte method, WILLTOPIC (2 bytes / empty), WILLMSG (1 byte), broker CONNACK (return code symbolic) when a CONNECT is pending",
+	"histories":     "fresh session, k events (quick k = 3, thorough k = 4): first event fixed per instance, the others chosen symbolically among CONNECT (will flag, clean session, keep-alive incl. 0, client ID symbolic), AUTH with a 5-byte method (PLAIN reachable) and 3 or 4 symbolic data bytes, AUTH with a 1-byte method, WILLTOPIC (2 bytes / empty), WILLMSG (1 byte / empty), broker CONNACK (return code symbolic) when a CONNECT is pending",
 	"configuration": "auth on/off, gateway credentials absent/present (1 symbolic byte each)",
 	"oracle":        "reference state machine of the connect exchange + reference SASL PLAIN splitter + independent MQTT CONNECT parser",
 }
